@@ -174,7 +174,7 @@ std::string op_print(const Op &o)
                 break;
         }
         if (o.thr)
-                return "@" + std::to_string(o.thr) + " " + s.str();
+                return "@" + std::to_string(o.thr) + " " + s.str() + " ~" + std::to_string(o.c); // ~n: yields before the call
         return s.str();
 }
 
@@ -184,7 +184,7 @@ std::string plan_print(const Plan &p)
         s << "cat-plan v1\n";
         s << "meta prop=" << p.prop << " seed=" << p.seed << " idx=" << p.idx << "\n";
         s << "world qcap=" << p.qcap << " shared=" << p.shared << " buf=" << p.buf_size << " ubuf=" << p.ubuf_size << " mutex=" << p.mutex << " fill=" << p.fill
-          << " observe=" << p.observe << " probeok=" << p.probe_ok << " scribble=" << p.scribble << " lockfail=" << p.lockfail << " unlockfail=" << p.unlockfail << " sched=" << p.sched << "\n";
+          << " observe=" << p.observe << " probeok=" << p.probe_ok << " scribble=" << p.scribble << " lockfail=" << p.lockfail << " unlockfail=" << p.unlockfail << " sched=" << p.sched << " other=" << p.other << "\n";
         for (auto &g : p.groups)
                 s << "group disable=" << g.disable << " name=" << (g.named ? hexenc(g.name) + "." : std::string("~")) << "\n";
         for (auto &c : p.cmds) {
@@ -291,6 +291,7 @@ bool plan_parse(const std::string &text, Plan &p, std::string &err)
                                 p.lockfail = (int)kv_int(m, "lockfail", -1);
                                 p.unlockfail = (int)kv_int(m, "unlockfail", -1);
                                 p.sched = (uint64_t)std::stoull(m.count("sched") ? m["sched"] : "0");
+                                p.other = kv_int(m, "other", 0);
                         } else if (w == "group") {
                                 KV m = kv_parse(ls);
                                 GroupSpec g;
@@ -434,6 +435,13 @@ bool plan_parse(const std::string &text, Plan &p, std::string &err)
                                 return fail("unknown op");
                 } catch (...) {
                         return fail("bad op");
+                }
+                if (o.thr) {
+                        std::string t;
+                        ls.clear();
+                        while (ls >> t)
+                                if (t.size() > 1 && t[0] == '~')
+                                        o.c = atoll(t.c_str() + 1);
                 }
                 p.ops.push_back(o);
         }
